@@ -144,5 +144,5 @@ func TestC05(t *testing.T) {
 		return
 	}
 	r.CheckKnown(parts)
-	r.Rapid("histories", r.N(5000, 150000), c05Prop)
+	r.Rapid("histories", r.N(15000, 250000), c05Prop)
 }
